@@ -531,6 +531,10 @@ def run(ctx):
     ctx.guarded(r, r4b_error_flow)
     r = ctx.rule("R5", "finished vertices go back to model space through the same projective map the evaluators used", 1)
     ctx.guarded(r, r5_model_space)
+    from .. import round8 as R8_
+
+    r = ctx.rule("R5b", "the evaluators get no transform exactly when world_to_model is the identity", 1)
+    ctx.guarded(r, R8_.r_transform_option)
     r = ctx.rule("R6", "an orientation-reversing world_to_model flips the winding (sign of the determinant reaches the triangle order)", 1)
     ctx.guarded(r, r6_orientation)
     from .. import qef as QF
